@@ -716,10 +716,40 @@ def always_visits(ctx, rep, rule, modules, exempt):
                 rep.exempt(rule, cons, ex, fi.loc())
                 continue
 
+            # names that stand for (some of) the children: bound from an expression that mentions <node>.<child field>
+            child_names = set()
+            for _ in range(2):
+                for b in ast.walk(fi.node):
+                    src, tgts = None, []
+                    if isinstance(b, ast.Assign):
+                        src, tgts = b.value, b.targets
+                    elif isinstance(b, (ast.For, ast.comprehension)):
+                        src, tgts = b.iter, [b.target]
+                    elif isinstance(b, ast.NamedExpr):
+                        src, tgts = b.value, [b.target]
+                    if src is None:
+                        continue
+                    if any((isinstance(x, ast.Attribute) and x.attr in CHILD_FIELDS and isinstance(x.value, ast.Name) and x.value.id == p) or (isinstance(x, ast.Name) and x.id in child_names) for x in ast.walk(src)):
+                        for t in tgts:
+                            child_names |= {x.id for x in ast.walk(t) if isinstance(x, ast.Name)}
+
+            def hands_children(c):
+                for a in list(c.args) + [k.value for k in c.keywords]:
+                    for x in ast.walk(a):
+                        if isinstance(x, ast.Attribute) and x.attr in CHILD_FIELDS and isinstance(x.value, ast.Name) and x.value.id == p:
+                            return True
+                        if isinstance(x, ast.Name) and x.id in child_names:
+                            return True
+                    if isinstance(a, ast.Name) and a.id == p:
+                        return True   # the node itself, handed on whole
+                    if isinstance(a, ast.Starred):
+                        return True
+                return False
+
             def visits(st):
                 for c in ast.walk(st):
                     if isinstance(c, ast.Call) and isinstance(c.func, ast.Attribute):
-                        if isinstance(c.func.value, ast.Name) and c.func.value.id == selfn and c.func.attr not in ("merge_into",):
+                        if isinstance(c.func.value, ast.Name) and c.func.value.id == selfn and c.func.attr not in ("merge_into",) and hands_children(c):
                             return True
                         if isinstance(c.func.value, ast.Call) and isinstance(c.func.value.func, ast.Name) and c.func.value.func.id == "super":
                             return True
